@@ -28,7 +28,7 @@ def build(ctx):
              subs=[('R7', r'status_\.load\(std::memory_order_(\w+)\)', r'A_LOAD_int(&self->status_, MO_\1)', 1),
                    ('R19', r'futex\(&ftx_, FUTEX_WAIT_PRIVATE, current, nullptr, nullptr, 0\)', 'G_futex_wait(&self->status_, current)', 1),
                    ('LC', r'(while\s*\(\(current = [^{]*\)\s*!=\s*completedStatus\))\s*\{',
-                    r'\1 __CPROVER_assigns(current, self->status_, g_last_loaded, g_loaded, g_waits, g_last_mo) __CPROVER_loop_invariant(g_completed == completedStatus) {', 1)])
+                    r'\1 __CPROVER_assigns(current, self->status_, g_last_loaded, g_loaded, g_waits, g_last_mo, g_errno) __CPROVER_loop_invariant(g_completed == completedStatus) {', 1)])
     lat = r'class\s+Latch\s*(?=\{)'
     st = [('R7', r'impl_\.intrusiveStatus\(\)\.fetch_sub\((\w+), std::memory_order_(\w+)\)', r'A_FETCH_SUB_int(&self->impl_.status_, \1, MO_\2)', 1)]
     ctx.emit('Latch_count_down.body.inc', r.function(L, r'void\s+count_down\s*\(\s*uint32_t\s+n\s*=\s*1\s*\)', within=lat), must_fire=['R7', 'R17'],
